@@ -384,6 +384,14 @@ def eventV1_eventV1_calculatedStickyEndTime : List String := [
   "return startTime.Add(time.Duration(durationMillis) * time.Millisecond)"
 ]
 
+def eventV1_type_eventV1 : List String := [
+  "type eventV1 struct { redacted bool eventJSON []byte roomVersion RoomVersion eventFields EventIDRaw string `json:\"event_id,omitempty\"` PrevEvents []eventReference `json:\"prev_events\"` AuthEvents []eventReference `json:\"auth_events\"` UnstableSticky stickyEventData `json:\"msc4354_sticky,omitempty\"` StableSticky stickyEventData `json:\"sticky,omitempty\"` }"
+]
+
+def eventV1_type_stickyEventData : List String := [
+  "type stickyEventData struct { DurationMillis int64 `json:\"duration_ms\"` }"
+]
+
 def eventV2__CheckFields : List String := [
   "func func(input PDU) error",
   "if input.AuthEventIDs() == nil || input.PrevEventIDs() == nil {",
@@ -637,6 +645,10 @@ def eventV2_eventV2_populateEventID : List String := [
   "return nil"
 ]
 
+def eventV2_type_eventV2 : List String := [
+  "type eventV2 struct { eventV1 PrevEvents []string `json:\"prev_events\"` AuthEvents []string `json:\"auth_events\"` }"
+]
+
 def eventV3__checkRoomID : List String := [
   "func func(res *eventV3) error",
   "isCreateEvent := res.Type() == spec.MRoomCreate && res.StateKeyEquals(\"\")",
@@ -790,6 +802,10 @@ def eventV3_eventV3_SetUnsigned : List String := [
 def eventV3_eventV3_Sign : List String := [
   "func func(signingName string, keyID KeyID, privateKey ed25519.PrivateKey) PDU",
   "return &eventV3{eventV2: *e.eventV2.Sign(signingName, keyID, privateKey).(*eventV2)}"
+]
+
+def eventV3_type_eventV3 : List String := [
+  "type eventV3 struct{ eventV2 }"
 ]
 
 def event_EventValidationError_Error : List String := [
@@ -950,6 +966,18 @@ def event_jsonWalk_duplicateName : List String := [
   "}",
   "}",
   "return \"\", false, nil"
+]
+
+def event_type_EventValidationError : List String := [
+  "type EventValidationError struct { Message string Code int Persistable bool }"
+]
+
+def event_type_eventFields : List String := [
+  "type eventFields struct { RoomID string `json:\"room_id\"` SenderID string `json:\"sender\"` Type string `json:\"type\"` StateKey *string `json:\"state_key\"` Content spec.RawJSON `json:\"content\"` Redacts string `json:\"redacts\"` Depth int64 `json:\"depth\"` Unsigned spec.RawJSON `json:\"unsigned,omitempty\"` OriginServerTS spec.Timestamp `json:\"origin_server_ts\"` }"
+]
+
+def event_type_jsonWalk : List String := [
+  "type jsonWalk struct { decodeName func(raw []byte, escaped bool) (string, bool) checkString func(raw []byte) error skipMember func(name string) bool }"
 ]
 
 def eventauth_AuthEvents_AddEvent : List String := [
@@ -1838,6 +1866,38 @@ def eventauth_membershipAllower_membershipFailed : List String := [
   "return errorf(\"%q is not allowed to change the membership of %q from %q to %q as \"+format, append([]interface{}{m.senderID, m.targetID, m.oldMember.Membership, m.newMember.Membership}, args...)...)"
 ]
 
+def eventauth_type_AuthEventProvider : List String := [
+  "type AuthEventProvider interface { Create() (PDU, error) JoinRules() (PDU, error) PowerLevels() (PDU, error) Member(stateKey spec.SenderID) (PDU, error) ThirdPartyInvite(stateKey string) (PDU, error) Valid() bool }"
+]
+
+def eventauth_type_AuthEvents : List String := [
+  "type AuthEvents struct { events map[StateKeyTuple]PDU roomIDs map[string]struct{} }"
+]
+
+def eventauth_type_NotAllowed : List String := [
+  "type NotAllowed struct{ Message string }"
+]
+
+def eventauth_type_StateNeeded : List String := [
+  "type StateNeeded struct { Create bool JoinRules bool PowerLevels bool Member []string ThirdPartyInvite []string }"
+]
+
+def eventauth_type_allowerContext : List String := [
+  "type allowerContext struct { provider AuthEventProvider userIDQuerier spec.UserIDForSender createEvent PDU powerLevelsEvent PDU joinRuleEvent PDU create CreateContent creators []string privilegedCreators bool powerLevels PowerLevelContent joinRule JoinRuleContent powerLevelsErr error roomID spec.RoomID }"
+]
+
+def eventauth_type_eventAllower : List String := [
+  "type eventAllower struct { *allowerContext member MemberContent }"
+]
+
+def eventauth_type_membershipAllower : List String := [
+  "type membershipAllower struct { *allowerContext roomVersionImpl IRoomVersion thirdPartyInvite ThirdPartyInviteContent targetID string senderID string senderMember MemberContent oldMember MemberContent newMember MemberContent joinRule JoinRuleContent }"
+]
+
+def eventauth_type_membershipContent : List String := [
+  "type membershipContent struct { Membership string `json:\"membership\"` ThirdPartyInvite *MemberThirdPartyInvite `json:\"third_party_invite,omitempty\"` AuthorizedVia string `json:\"join_authorised_via_users_server,omitempty\"` MXIDMapping *MXIDMapping `json:\"mxid_mapping,omitempty\"` }"
+]
+
 def eventcontent_CreateContent_DomainAllowed : List String := [
   "func func(domain string) error",
   "if domain == c.senderDomain {",
@@ -2246,6 +2306,78 @@ def eventcontent_notNullLevels_UnmarshalJSON : List String := [
   "return fmt.Errorf(\"map of power levels is null\")",
   "}",
   "return nil"
+]
+
+def eventcontent_type_CreateContent : List String := [
+  "type CreateContent struct { senderDomain string roomID string eventID string Federate *bool `json:\"m.federate,omitempty\"` Creator string `json:\"creator\"` RoomVersion *RoomVersion `json:\"room_version,omitempty\"` Predecessor *PreviousRoom `json:\"predecessor,omitempty\"` RoomType string `json:\"type,omitempty\"` AdditionalCreators []string `json:\"additional_creators,omitempty\"` }"
+]
+
+def eventcontent_type_HistoryVisibility : List String := [
+  "type HistoryVisibility string"
+]
+
+def eventcontent_type_HistoryVisibilityContent : List String := [
+  "type HistoryVisibilityContent struct { HistoryVisibility HistoryVisibility `json:\"history_visibility\"` }"
+]
+
+def eventcontent_type_JoinRuleContent : List String := [
+  "type JoinRuleContent struct { JoinRule string `json:\"join_rule\"` Allow []JoinRuleContentAllowRule `json:\"allow,omitempty\"` }"
+]
+
+def eventcontent_type_JoinRuleContentAllowRule : List String := [
+  "type JoinRuleContentAllowRule struct { Type string `json:\"type\"` RoomID string `json:\"room_id\"` }"
+]
+
+def eventcontent_type_MXIDMapping : List String := [
+  "type MXIDMapping struct { UserRoomKey spec.SenderID `json:\"user_room_key\"` UserID string `json:\"user_id\"` Signatures map[spec.ServerName]map[KeyID]spec.Base64Bytes `json:\"signatures,omitempty\"` }"
+]
+
+def eventcontent_type_MemberContent : List String := [
+  "type MemberContent struct { Membership string `json:\"membership\"` DisplayName string `json:\"displayname,omitempty\"` AvatarURL string `json:\"avatar_url,omitempty\"` Reason string `json:\"reason,omitempty\"` IsDirect bool `json:\"is_direct,omitempty\"` ThirdPartyInvite *MemberThirdPartyInvite `json:\"third_party_invite,omitempty\"` AuthorisedVia string `json:\"join_authorised_via_users_server,omitempty\"` MXIDMapping *MXIDMapping `json:\"mxid_mapping,omitempty\"` }"
+]
+
+def eventcontent_type_MemberThirdPartyInvite : List String := [
+  "type MemberThirdPartyInvite struct { DisplayName string `json:\"display_name\"` Signed MemberThirdPartyInviteSigned `json:\"signed\"` }"
+]
+
+def eventcontent_type_MemberThirdPartyInviteSigned : List String := [
+  "type MemberThirdPartyInviteSigned struct { MXID string `json:\"mxid\"` Signatures map[string]map[string]string `json:\"signatures\"` Token string `json:\"token\"` }"
+]
+
+def eventcontent_type_PowerLevelContent : List String := [
+  "type PowerLevelContent struct { Ban int64 `json:\"ban\"` Invite int64 `json:\"invite\"` Kick int64 `json:\"kick\"` Redact int64 `json:\"redact\"` Users map[string]int64 `json:\"users\"` UsersDefault int64 `json:\"users_default\"` Events map[string]int64 `json:\"events\"` EventsDefault int64 `json:\"events_default\"` StateDefault int64 `json:\"state_default\"` Notifications map[string]int64 `json:\"notifications\"` }"
+]
+
+def eventcontent_type_PreviousRoom : List String := [
+  "type PreviousRoom struct { RoomID string `json:\"room_id\"` EventID string `json:\"event_id\"` }"
+]
+
+def eventcontent_type_PublicKey : List String := [
+  "type PublicKey struct { PublicKey spec.Base64Bytes `json:\"public_key\"` KeyValidityURL string `json:\"key_validity_url\"` }"
+]
+
+def eventcontent_type_RelatesTo : List String := [
+  "type RelatesTo struct { EventID string `json:\"event_id\"` RelationType string `json:\"rel_type\"` }"
+]
+
+def eventcontent_type_RelationContent : List String := [
+  "type RelationContent struct { Relations *RelatesTo `json:\"m.relates_to\"` }"
+]
+
+def eventcontent_type_ThirdPartyInviteContent : List String := [
+  "type ThirdPartyInviteContent struct { DisplayName string `json:\"display_name\"` KeyValidityURL string `json:\"key_validity_url\"` PublicKey string `json:\"public_key\"` PublicKeys []PublicKey `json:\"public_keys\"` }"
+]
+
+def eventcontent_type_levelJSONValue : List String := [
+  "type levelJSONValue struct { exists bool value int64 }"
+]
+
+def eventcontent_type_notNullLevel : List String := [
+  "type notNullLevel struct{}"
+]
+
+def eventcontent_type_notNullLevels : List String := [
+  "type notNullLevels struct{}"
 ]
 
 def eventcrypto__VerifyAllEventSignatures : List String := [
@@ -2772,6 +2904,38 @@ def eventversion__StableRoomVersions : List String := [
   "return versions"
 ]
 
+def eventversion_type_EventFormat : List String := [
+  "type EventFormat int"
+]
+
+def eventversion_type_EventIDFormat : List String := [
+  "type EventIDFormat int"
+]
+
+def eventversion_type_IRoomVersion : List String := [
+  "type IRoomVersion interface { Version() RoomVersion Stable() bool StateResAlgorithm() StateResAlgorithm EventFormat() EventFormat EventIDFormat() EventIDFormat RedactEventJSON(eventJSON []byte) ([]byte, error) SignatureValidityCheck(atTS, validUntil spec.Timestamp) bool NewEventFromTrustedJSON(eventJSON []byte, redacted bool) (result PDU, err error) NewEventFromTrustedJSONWithEventID(eventID string, eventJSON []byte, redacted bool) (result PDU, err error) NewEventFromUntrustedJSON(eventJSON []byte) (result PDU, err error) NewEventBuilder() *EventBuilder NewEventBuilderFromProtoEvent(pe *ProtoEvent) *EventBuilder CheckRestrictedJoin(ctx context.Context, localServerName spec.ServerName, roomQuerier RestrictedRoomJoinQuerier, roomID spec.RoomID, senderID spec.SenderID) (string, error) RestrictedJoinServername(content []byte) (spec.ServerName, error) CheckRestrictedJoinsAllowed() error CheckKnockingAllowed(roomVer, sender, target, joinRule, prevMembership string) error CheckPowerLevelEvent(sender string, createEvent PDU, oldPowerLevels, newPowerLevels PowerLevelContent) error CheckCanonicalJSON(input []byte) error ParsePowerLevels(contentBytes []byte, c *PowerLevelContent) error CheckCreateEvent(event PDU, sender spec.UserID, knownRoomVersion KnownRoomVersionFunc) error DomainlessRoomIDs() bool PrivilegedCreators() bool }"
+]
+
+def eventversion_type_KnownRoomVersionFunc : List String := [
+  "type KnownRoomVersionFunc func(RoomVersion) bool"
+]
+
+def eventversion_type_RoomVersion : List String := [
+  "type RoomVersion string"
+]
+
+def eventversion_type_RoomVersionImpl : List String := [
+  "type RoomVersionImpl struct { ver RoomVersion stateResAlgorithm StateResAlgorithm eventFormat EventFormat eventIDFormat EventIDFormat redactionAlgorithm func(eventJSON []byte) ([]byte, error) signatureValidityCheckFunc SignatureValidityCheckFunc canonicalJSONCheck func(eventJSON []byte) error checkPowerLevelEvent func(sender string, createEvent PDU, oldPowerLevels, newPowerLevels PowerLevelContent) error parsePowerLevelsFunc func(contentBytes []byte, c *PowerLevelContent) error stable bool domainlessRoomID bool privilegedCreators bool checkRestrictedJoin func(ctx context.Context, localServerName spec.ServerName, roomQuerier RestrictedRoomJoinQuerier, roomID spec.RoomID, senderID spec.SenderID, privilegedCreators bool) (string, error) restrictedJoinServernameFunc func(content []byte) (spec.ServerName, error) checkRestrictedJoinAllowedFunc func() error checkKnockingAllowedFunc func(roomVer, sender, target, joinRule, prevMembership string) error checkCreateEvent func(e PDU, sender spec.UserID, knownRoomVersion KnownRoomVersionFunc) error newEventFromUntrustedJSONFunc func(eventJSON []byte, roomVersion IRoomVersion) (result PDU, err error) newEventFromTrustedJSONFunc func(eventJSON []byte, redacted bool, roomVersion IRoomVersion) (result PDU, err error) newEventFromTrustedJSONWithEventIDFunc func(eventID string, eventJSON []byte, redacted bool, roomVersion IRoomVersion) (result PDU, err error) }"
+]
+
+def eventversion_type_StateResAlgorithm : List String := [
+  "type StateResAlgorithm int"
+]
+
+def eventversion_type_UnsupportedRoomVersionError : List String := [
+  "type UnsupportedRoomVersionError struct{ Version RoomVersion }"
+]
+
 def fclient_federationtypes_DeviceKeys_Scan : List String := [
   "func func(src interface{}) error",
   "switch v := src.(type) { case string: return json.Unmarshal([]byte(v), s) case []byte: return json.Unmarshal(v, s) }",
@@ -2954,6 +3118,150 @@ def fclient_federationtypes__NewMSC2836EventRelationshipsRequest : List String :
   "return nil, err",
   "}",
   "return &relation, nil"
+]
+
+def fclient_federationtypes_type_DeviceKeys : List String := [
+  "type DeviceKeys struct { RespUserDeviceKeys Unsigned map[string]interface{} `json:\"unsigned\"` }"
+]
+
+def fclient_federationtypes_type_EmptyResp : List String := [
+  "type EmptyResp struct{}"
+]
+
+def fclient_federationtypes_type_MSC2836EventRelationshipsRequest : List String := [
+  "type MSC2836EventRelationshipsRequest struct { EventID string `json:\"event_id\"` MaxDepth int `json:\"max_depth\"` MaxBreadth int `json:\"max_breadth\"` Limit int `json:\"limit\"` DepthFirst bool `json:\"depth_first\"` RecentFirst bool `json:\"recent_first\"` IncludeParent bool `json:\"include_parent\"` IncludeChildren bool `json:\"include_children\"` Direction string `json:\"direction\"` Batch string `json:\"batch\"` AutoJoin bool `json:\"auto_join\"` }"
+]
+
+def fclient_federationtypes_type_MSC2836EventRelationshipsResponse : List String := [
+  "type MSC2836EventRelationshipsResponse struct { Events gomatrixserverlib.EventJSONs `json:\"events\"` NextBatch string `json:\"next_batch\"` Limited bool `json:\"limited\"` AuthChain gomatrixserverlib.EventJSONs `json:\"auth_chain\"` }"
+]
+
+def fclient_federationtypes_type_MissingEvents : List String := [
+  "type MissingEvents struct { Limit int `json:\"limit\"` MinDepth int `json:\"min_depth\"` EarliestEvents []string `json:\"earliest_events\"` LatestEvents []string `json:\"latest_events\"` }"
+]
+
+def fclient_federationtypes_type_PDUResult : List String := [
+  "type PDUResult struct { Error string `json:\"error,omitempty\"` }"
+]
+
+def fclient_federationtypes_type_PublicRoom : List String := [
+  "type PublicRoom struct { CanonicalAlias string `json:\"canonical_alias,omitempty\"` Name string `json:\"name,omitempty\"` JoinedMembersCount int `json:\"num_joined_members\"` RoomID string `json:\"room_id\"` Topic string `json:\"topic,omitempty\"` WorldReadable bool `json:\"world_readable\"` GuestCanJoin bool `json:\"guest_can_join\"` AvatarURL string `json:\"avatar_url,omitempty\"` JoinRule string `json:\"join_rule,omitempty\"` RoomType string `json:\"room_type,omitempty\"` }"
+]
+
+def fclient_federationtypes_type_RespClaimKeys : List String := [
+  "type RespClaimKeys struct { OneTimeKeys map[string]map[string]map[string]json.RawMessage `json:\"one_time_keys\"` }"
+]
+
+def fclient_federationtypes_type_RespDirectory : List String := [
+  "type RespDirectory struct { RoomID string `json:\"room_id\"` Servers []spec.ServerName `json:\"servers\"` }"
+]
+
+def fclient_federationtypes_type_RespEventAuth : List String := [
+  "type RespEventAuth struct { AuthEvents gomatrixserverlib.EventJSONs `json:\"auth_chain\"` }"
+]
+
+def fclient_federationtypes_type_RespInvite : List String := [
+  "type RespInvite struct { Event spec.RawJSON `json:\"event\"` }"
+]
+
+def fclient_federationtypes_type_RespInviteV2 : List String := [
+  "type RespInviteV2 struct { Event spec.RawJSON `json:\"event\"` }"
+]
+
+def fclient_federationtypes_type_RespMakeJoin : List String := [
+  "type RespMakeJoin struct { JoinEvent gomatrixserverlib.ProtoEvent `json:\"event\"` RoomVersion gomatrixserverlib.RoomVersion `json:\"room_version\"` }"
+]
+
+def fclient_federationtypes_type_RespMakeKnock : List String := [
+  "type RespMakeKnock struct { KnockEvent gomatrixserverlib.ProtoEvent `json:\"event\"` RoomVersion gomatrixserverlib.RoomVersion `json:\"room_version\"` }"
+]
+
+def fclient_federationtypes_type_RespMakeLeave : List String := [
+  "type RespMakeLeave struct { LeaveEvent gomatrixserverlib.ProtoEvent `json:\"event\"` RoomVersion gomatrixserverlib.RoomVersion `json:\"room_version\"` }"
+]
+
+def fclient_federationtypes_type_RespMissingEvents : List String := [
+  "type RespMissingEvents struct { Events gomatrixserverlib.EventJSONs `json:\"events\"` }"
+]
+
+def fclient_federationtypes_type_RespPeek : List String := [
+  "type RespPeek struct { RenewalInterval int64 `json:\"renewal_interval\"` StateEvents gomatrixserverlib.EventJSONs `json:\"state\"` AuthEvents gomatrixserverlib.EventJSONs `json:\"auth_chain\"` RoomVersion gomatrixserverlib.RoomVersion `json:\"room_version\"` LatestEvent gomatrixserverlib.PDU `json:\"latest_event\"` }"
+]
+
+def fclient_federationtypes_type_RespProfile : List String := [
+  "type RespProfile struct { DisplayName string `json:\"displayname,omitempty\"` AvatarURL string `json:\"avatar_url,omitempty\"` }"
+]
+
+def fclient_federationtypes_type_RespPublicRooms : List String := [
+  "type RespPublicRooms struct { Chunk []PublicRoom `json:\"chunk\"` NextBatch string `json:\"next_batch,omitempty\"` PrevBatch string `json:\"prev_batch,omitempty\"` TotalRoomCountEstimate int `json:\"total_room_count_estimate,omitempty\"` }"
+]
+
+def fclient_federationtypes_type_RespQueryKeys : List String := [
+  "type RespQueryKeys struct { DeviceKeys map[string]map[string]DeviceKeys `json:\"device_keys\"` MasterKeys map[string]CrossSigningKey `json:\"master_keys\"` SelfSigningKeys map[string]CrossSigningKey `json:\"self_signing_keys\"` }"
+]
+
+def fclient_federationtypes_type_RespSend : List String := [
+  "type RespSend struct { PDUs map[string]PDUResult `json:\"pdus\"` }"
+]
+
+def fclient_federationtypes_type_RespSendJoin : List String := [
+  "type RespSendJoin struct { StateEvents gomatrixserverlib.EventJSONs `json:\"state\"` AuthEvents gomatrixserverlib.EventJSONs `json:\"auth_chain\"` Origin spec.ServerName `json:\"origin\"` Event spec.RawJSON `json:\"event,omitempty\"` MembersOmitted bool `json:\"members_omitted\"` ServersInRoom []string `json:\"servers_in_room\"` }"
+]
+
+def fclient_federationtypes_type_RespSendKnock : List String := [
+  "type RespSendKnock struct { KnockRoomState []gomatrixserverlib.InviteStrippedState `json:\"knock_room_state\"` }"
+]
+
+def fclient_federationtypes_type_RespState : List String := [
+  "type RespState struct { StateEvents gomatrixserverlib.EventJSONs `json:\"pdus\"` AuthEvents gomatrixserverlib.EventJSONs `json:\"auth_chain\"` }"
+]
+
+def fclient_federationtypes_type_RespStateIDs : List String := [
+  "type RespStateIDs struct { StateEventIDs []string `json:\"pdu_ids\"` AuthEventIDs []string `json:\"auth_chain_ids\"` }"
+]
+
+def fclient_federationtypes_type_RespUserDevice : List String := [
+  "type RespUserDevice struct { DeviceID string `json:\"device_id\"` DisplayName string `json:\"device_display_name\"` Keys RespUserDeviceKeys `json:\"keys\"` }"
+]
+
+def fclient_federationtypes_type_RespUserDeviceKeys : List String := [
+  "type RespUserDeviceKeys struct { UserID string `json:\"user_id\"` DeviceID string `json:\"device_id\"` Algorithms []string `json:\"algorithms\"` Keys map[gomatrixserverlib.KeyID]spec.Base64Bytes `json:\"keys\"` Signatures map[string]map[gomatrixserverlib.KeyID]spec.Base64Bytes `json:\"signatures\"` }"
+]
+
+def fclient_federationtypes_type_RespUserDevices : List String := [
+  "type RespUserDevices struct { UserID string `json:\"user_id\"` StreamID int64 `json:\"stream_id\"` Devices []RespUserDevice `json:\"devices\"` MasterKey *CrossSigningKey `json:\"master_key\"` SelfSigningKey *CrossSigningKey `json:\"self_signing_key\"` }"
+]
+
+def fclient_federationtypes_type_RoomHierarchyResponse : List String := [
+  "type RoomHierarchyResponse struct { Room RoomHierarchyRoom `json:\"room\"` Children []RoomHierarchyRoom `json:\"children\"` InaccessibleChildren []string `json:\"inaccessible_children\"` }"
+]
+
+def fclient_federationtypes_type_RoomHierarchyRoom : List String := [
+  "type RoomHierarchyRoom struct { PublicRoom ChildrenState []RoomHierarchyStrippedEvent `json:\"children_state\"` AllowedRoomIDs []string `json:\"allowed_room_ids,omitempty\"` RoomType string `json:\"room_type\"` }"
+]
+
+def fclient_federationtypes_type_RoomHierarchyStrippedEvent : List String := [
+  "type RoomHierarchyStrippedEvent struct { Type string `json:\"type\"` StateKey string `json:\"state_key\"` Content json.RawMessage `json:\"content\"` Sender string `json:\"sender\"` OriginServerTS spec.Timestamp `json:\"origin_server_ts\"` }"
+]
+
+def fclient_federationtypes_type_Version : List String := [
+  "type Version struct { Server struct { Name string `json:\"name\"` Version string `json:\"version\"` } `json:\"server\"` }"
+]
+
+def fclient_federationtypes_type_respInviteFields : List String := [
+  "type respInviteFields struct { Event spec.RawJSON `json:\"event\"` }"
+]
+
+def fclient_federationtypes_type_respSendJoinFields : List String := [
+  "type respSendJoinFields struct { StateEvents gomatrixserverlib.EventJSONs `json:\"state\"` AuthEvents gomatrixserverlib.EventJSONs `json:\"auth_chain\"` Origin spec.ServerName `json:\"origin\"` Event spec.RawJSON `json:\"event,omitempty\"` }"
+]
+
+def fclient_federationtypes_type_respSendJoinPartialStateFields : List String := [
+  "type respSendJoinPartialStateFields struct { respSendJoinFields MembersOmitted bool `json:\"members_omitted\"` ServersInRoom []string `json:\"servers_in_room\"` }"
+]
+
+def fclient_federationtypes_type_respStateFields : List String := [
+  "type respStateFields struct { StateEvents gomatrixserverlib.EventJSONs `json:\"pdus\"` AuthEvents gomatrixserverlib.EventJSONs `json:\"auth_chain\"` }"
 ]
 
 def fclient_request_FederationRequest_Content : List String := [
@@ -3225,6 +3533,10 @@ def fclient_request__readHTTPRequest : List String := [
   "return &result, nil"
 ]
 
+def fclient_request_type_FederationRequest : List String := [
+  "type FederationRequest struct { fields struct { Content spec.RawJSON `json:\"content,omitempty\"` Destination spec.ServerName `json:\"destination\"` Method string `json:\"method\"` Origin spec.ServerName `json:\"origin\"` RequestURI string `json:\"uri\"` Signatures map[spec.ServerName]map[gomatrixserverlib.KeyID]string `json:\"signatures,omitempty\"` } }"
+]
+
 def json_EventJSONs_TrustedEvents : List String := [
   "func func(roomVersion RoomVersion, redacted bool) []PDU",
   "verImpl, err := GetRoomVersion(roomVersion)",
@@ -3466,6 +3778,10 @@ def json__verifyEnforcedCanonicalJSON : List String := [
   "return nil"
 ]
 
+def json_type_EventJSONs : List String := [
+  "type EventJSONs []spec.RawJSON"
+]
+
 def keys_ServerKeys_MarshalJSON : List String := [
   "func func() ([]byte, error)",
   "if len(keys.Raw) == 0 {",
@@ -3535,6 +3851,30 @@ def keys__checkVerifyKeys : List String := [
   "checks.AllChecksOK = checks.HasEd25519Key && allEd25519ChecksOK",
   "}",
   "return verifyKeys"
+]
+
+def keys_type_Ed25519Checks : List String := [
+  "type Ed25519Checks struct { ValidEd25519 bool MatchingSignature bool }"
+]
+
+def keys_type_KeyChecks : List String := [
+  "type KeyChecks struct { AllChecksOK bool MatchingServerName bool FutureValidUntilTS bool HasEd25519Key bool AllEd25519ChecksOK *bool Ed25519Checks map[KeyID]Ed25519Checks }"
+]
+
+def keys_type_OldVerifyKey : List String := [
+  "type OldVerifyKey struct { VerifyKey ExpiredTS spec.Timestamp `json:\"expired_ts\"` }"
+]
+
+def keys_type_ServerKeyFields : List String := [
+  "type ServerKeyFields struct { ServerName spec.ServerName `json:\"server_name\"` VerifyKeys map[KeyID]VerifyKey `json:\"verify_keys\"` ValidUntilTS spec.Timestamp `json:\"valid_until_ts\"` OldVerifyKeys map[KeyID]OldVerifyKey `json:\"old_verify_keys\"` }"
+]
+
+def keys_type_ServerKeys : List String := [
+  "type ServerKeys struct { Raw []byte ServerKeyFields }"
+]
+
+def keys_type_VerifyKey : List String := [
+  "type VerifyKey struct { Key spec.Base64Bytes `json:\"key\"` }"
 ]
 
 def signing__ListKeyIDs : List String := [
@@ -3696,6 +4036,10 @@ def signing__checkStrictString : List String := [
   "return nil"
 ]
 
+def signing_type_KeyID : List String := [
+  "type KeyID string"
+]
+
 def spec_senderid_SenderID_IsPseudoID : List String := [
   "func func() bool",
   "return !s.IsUserID()"
@@ -3745,6 +4089,26 @@ def spec_senderid__SenderIDFromPseudoIDKey : List String := [
 def spec_senderid__SenderIDFromUserID : List String := [
   "func func(user UserID) SenderID",
   "return SenderID(user.String())"
+]
+
+def spec_senderid_type_CreateSenderID : List String := [
+  "type CreateSenderID func(ctx context.Context, userID UserID, roomID RoomID, roomVersion string) (SenderID, ed25519.PrivateKey, error)"
+]
+
+def spec_senderid_type_SenderID : List String := [
+  "type SenderID string"
+]
+
+def spec_senderid_type_SenderIDForUser : List String := [
+  "type SenderIDForUser func(roomID RoomID, userID UserID) (*SenderID, error)"
+]
+
+def spec_senderid_type_StoreSenderIDFromPublicID : List String := [
+  "type StoreSenderIDFromPublicID func(ctx context.Context, senderID SenderID, userID string, id RoomID) error"
+]
+
+def spec_senderid_type_UserIDForSender : List String := [
+  "type UserIDForSender func(roomID RoomID, senderID SenderID) (*UserID, error)"
 ]
 
 def stateresolutionv2__HeaderedReverseTopologicalOrdering : List String := [
@@ -4398,6 +4762,18 @@ def stateresolutionv2_stateResolverV2_wrapPowerLevelEventsForSort : List String 
   "return block"
 ]
 
-def functions : List String := ["eventV1.go:.newEventFromTrustedJSONV1", "eventV1.go:.newEventFromTrustedJSONWithEventIDV1", "eventV1.go:.newEventFromUntrustedJSONV1", "eventV1.go:.signableEventJSON", "eventV1.go:eventV1.AuthEventIDs", "eventV1.go:eventV1.Content", "eventV1.go:eventV1.Depth", "eventV1.go:eventV1.EventID", "eventV1.go:eventV1.HistoryVisibility", "eventV1.go:eventV1.IsSticky", "eventV1.go:eventV1.JSON", "eventV1.go:eventV1.JoinRule", "eventV1.go:eventV1.MarshalJSON", "eventV1.go:eventV1.Membership", "eventV1.go:eventV1.OriginServerTS", "eventV1.go:eventV1.PowerLevels", "eventV1.go:eventV1.PrevEventIDs", "eventV1.go:eventV1.Redact", "eventV1.go:eventV1.Redacted", "eventV1.go:eventV1.Redacts", "eventV1.go:eventV1.RoomID", "eventV1.go:eventV1.SenderID", "eventV1.go:eventV1.SetUnsigned", "eventV1.go:eventV1.SetUnsignedField", "eventV1.go:eventV1.Sign", "eventV1.go:eventV1.StateKey", "eventV1.go:eventV1.StateKeyEquals", "eventV1.go:eventV1.StickyEndTime", "eventV1.go:eventV1.ToHeaderedJSON", "eventV1.go:eventV1.Type", "eventV1.go:eventV1.Unsigned", "eventV1.go:eventV1.Version", "eventV1.go:eventV1.assumedStickyStartTime", "eventV1.go:eventV1.calculatedStickyEndTime", "eventV2.go:.CheckFields", "eventV2.go:.newEventFromTrustedJSONV2", "eventV2.go:.newEventFromTrustedJSONWithEventIDV2", "eventV2.go:.newEventFromUntrustedJSONV2", "eventV2.go:eventV2.AuthEventIDs", "eventV2.go:eventV2.EventID", "eventV2.go:eventV2.MarshalJSON", "eventV2.go:eventV2.PrevEventIDs", "eventV2.go:eventV2.Redact", "eventV2.go:eventV2.SenderID", "eventV2.go:eventV2.SetUnsigned", "eventV2.go:eventV2.Sign", "eventV2.go:eventV2.populateEventID", "eventV3.go:.checkRoomID", "eventV3.go:.newEventFromTrustedJSONV3", "eventV3.go:.newEventFromTrustedJSONWithEventIDV3", "eventV3.go:.newEventFromUntrustedJSONV3", "eventV3.go:eventV3.AuthEventIDs", "eventV3.go:eventV3.RoomID", "eventV3.go:eventV3.SetUnsigned", "eventV3.go:eventV3.Sign", "event.go:EventValidationError.Error", "event.go:.SplitID", "event.go:.checkID", "event.go:.checkRoomIDField", "event.go:.checkUntrustedEventJSON", "event.go:.duplicateJSONKey", "event.go:.jsonFieldNames", "event.go:jsonWalk.duplicateName", "eventauth.go:AuthEvents.AddEvent", "eventauth.go:AuthEvents.Clear", "eventauth.go:AuthEvents.Create", "eventauth.go:AuthEvents.JoinRules", "eventauth.go:AuthEvents.Member", "eventauth.go:AuthEvents.PowerLevels", "eventauth.go:AuthEvents.ThirdPartyInvite", "eventauth.go:AuthEvents.Valid", "eventauth.go:NotAllowed.Error", "eventauth.go:StateNeeded.AuthEventReferences", "eventauth.go:StateNeeded.Tuples", "eventauth.go:.Allowed", "eventauth.go:.NewAuthEvents", "eventauth.go:.StateNeededForAuth", "eventauth.go:.StateNeededForProtoEvent", "eventauth.go:.accumulateStateNeeded", "eventauth.go:.allowRestrictedJoins", "eventauth.go:.checkEventLevels", "eventauth.go:.checkKnocking", "eventauth.go:.checkNotificationLevels", "eventauth.go:.checkPowerLevelEventV1", "eventauth.go:.checkPowerLevelEventV2", "eventauth.go:.checkPowerLevelEventV3", "eventauth.go:.checkUserLevels", "eventauth.go:.disallowKnocking", "eventauth.go:.disallowRestrictedJoins", "eventauth.go:.errorf", "eventauth.go:.newAllowerContext", "eventauth.go:.thirdPartyInviteToken", "eventauth.go:allowerContext.aliasEventAllowed", "eventauth.go:allowerContext.allowed", "eventauth.go:allowerContext.createEventAllowed", "eventauth.go:allowerContext.defaultEventAllowed", "eventauth.go:allowerContext.memberEventAllowed", "eventauth.go:allowerContext.newEventAllower", "eventauth.go:allowerContext.newMembershipAllower", "eventauth.go:allowerContext.powerLevelsEventAllowed", "eventauth.go:allowerContext.redactEventAllowed", "eventauth.go:allowerContext.resetCreate", "eventauth.go:allowerContext.update", "eventauth.go:allowerContext.userPowerLevel", "eventauth.go:eventAllower.commonChecks", "eventauth.go:membershipAllower.membershipAllowed", "eventauth.go:membershipAllower.membershipAllowedFromThirdPartyInvite", "eventauth.go:membershipAllower.membershipAllowedOther", "eventauth.go:membershipAllower.membershipAllowedSelf", "eventauth.go:membershipAllower.membershipAllowedSelfForRestrictedJoin", "eventauth.go:membershipAllower.membershipFailed", "eventcontent.go:CreateContent.DomainAllowed", "eventcontent.go:CreateContent.UserIDAllowed", "eventcontent.go:HistoryVisibility.Scan", "eventcontent.go:HistoryVisibility.Value", "eventcontent.go:MXIDMapping.Sign", "eventcontent.go:PowerLevelContent.Defaults", "eventcontent.go:PowerLevelContent.EventLevel", "eventcontent.go:PowerLevelContent.NotificationLevel", "eventcontent.go:PowerLevelContent.UserLevel", "eventcontent.go:.CreatorsFromCreateEvent", "eventcontent.go:.NewCreateContentFromAuthEvents", "eventcontent.go:.NewJoinRuleContentFromAuthEvents", "eventcontent.go:.NewMemberContentFromAuthEvents", "eventcontent.go:.NewMemberContentFromEvent", "eventcontent.go:.NewPowerLevelContentFromAuthEvents", "eventcontent.go:.NewPowerLevelContentFromEvent", "eventcontent.go:.NewThirdPartyInviteContentFromAuthEvents", "eventcontent.go:.checkCreateEventV1", "eventcontent.go:.checkCreateEventV2", "eventcontent.go:.checkCreateEventV3", "eventcontent.go:.domainFromID", "eventcontent.go:.isValidUserID", "eventcontent.go:.parseIntegerPowerLevels", "eventcontent.go:.parsePowerLevels", "eventcontent.go:levelJSONValue.UnmarshalJSON", "eventcontent.go:levelJSONValue.assignIfExists", "eventcontent.go:notNullLevel.UnmarshalJSON", "eventcontent.go:notNullLevels.UnmarshalJSON", "eventcrypto.go:.VerifyAllEventSignatures", "eventcrypto.go:.VerifyEventSignatures", "eventcrypto.go:.addContentHashesToEvent", "eventcrypto.go:.checkEventContentHash", "eventcrypto.go:.emptyAuthorisedViaServerName", "eventcrypto.go:.extractAuthorisedViaServerName", "eventcrypto.go:.getMXIDMapping", "eventcrypto.go:.membershipForSignatures", "eventcrypto.go:.referenceOfEvent", "eventcrypto.go:.referenceOfEventForVersion", "eventcrypto.go:.signEvent", "eventcrypto.go:.validateMXIDMappingSignatures", "eventversion.go:RoomVersionImpl.CheckCanonicalJSON", "eventversion.go:RoomVersionImpl.CheckCreateEvent", "eventversion.go:RoomVersionImpl.CheckKnockingAllowed", "eventversion.go:RoomVersionImpl.CheckPowerLevelEvent", "eventversion.go:RoomVersionImpl.CheckRestrictedJoin", "eventversion.go:RoomVersionImpl.CheckRestrictedJoinsAllowed", "eventversion.go:RoomVersionImpl.DomainlessRoomIDs", "eventversion.go:RoomVersionImpl.EventFormat", "eventversion.go:RoomVersionImpl.EventIDFormat", "eventversion.go:RoomVersionImpl.NewEventBuilder", "eventversion.go:RoomVersionImpl.NewEventBuilderFromProtoEvent", "eventversion.go:RoomVersionImpl.NewEventFromTrustedJSON", "eventversion.go:RoomVersionImpl.NewEventFromTrustedJSONWithEventID", "eventversion.go:RoomVersionImpl.NewEventFromUntrustedJSON", "eventversion.go:RoomVersionImpl.ParsePowerLevels", "eventversion.go:RoomVersionImpl.PrivilegedCreators", "eventversion.go:RoomVersionImpl.RedactEventJSON", "eventversion.go:RoomVersionImpl.RestrictedJoinServername", "eventversion.go:RoomVersionImpl.SignatureValidityCheck", "eventversion.go:RoomVersionImpl.Stable", "eventversion.go:RoomVersionImpl.StateResAlgorithm", "eventversion.go:RoomVersionImpl.Version", "eventversion.go:UnsupportedRoomVersionError.Error", "eventversion.go:.GetRoomVersion", "eventversion.go:.KnownRoomVersion", "eventversion.go:.MustGetRoomVersion", "eventversion.go:.NewEventFromHeaderedJSON", "eventversion.go:.RoomVersions", "eventversion.go:.SetRoomVersion", "eventversion.go:.StableRoomVersion", "eventversion.go:.StableRoomVersions", "fclient/federationtypes.go:DeviceKeys.Scan", "fclient/federationtypes.go:DeviceKeys.Value", "fclient/federationtypes.go:DeviceKeys.isCrossSigningBody", "fclient/federationtypes.go:MSC2836EventRelationshipsRequest.Defaults", "fclient/federationtypes.go:RespInvite.MarshalJSON", "fclient/federationtypes.go:RespInvite.UnmarshalJSON", "fclient/federationtypes.go:RespMakeJoin.GetJoinEvent", "fclient/federationtypes.go:RespMakeJoin.GetRoomVersion", "fclient/federationtypes.go:RespPeek.GetAuthEvents", "fclient/federationtypes.go:RespPeek.GetStateEvents", "fclient/federationtypes.go:RespPeek.MarshalJSON", "fclient/federationtypes.go:RespSendJoin.GetAuthEvents", "fclient/federationtypes.go:RespSendJoin.GetJoinEvent", "fclient/federationtypes.go:RespSendJoin.GetMembersOmitted", "fclient/federationtypes.go:RespSendJoin.GetOrigin", "fclient/federationtypes.go:RespSendJoin.GetServersInRoom", "fclient/federationtypes.go:RespSendJoin.GetStateEvents", "fclient/federationtypes.go:RespSendJoin.MarshalJSON", "fclient/federationtypes.go:RespStateIDs.GetAuthEventIDs", "fclient/federationtypes.go:RespStateIDs.GetStateEventIDs", "fclient/federationtypes.go:RespState.GetAuthEvents", "fclient/federationtypes.go:RespState.GetStateEvents", "fclient/federationtypes.go:RespState.MarshalJSON", "fclient/federationtypes.go:RespUserDevices.UnmarshalJSON", "fclient/federationtypes.go:.NewMSC2836EventRelationshipsRequest", "fclient/request.go:FederationRequest.Content", "fclient/request.go:FederationRequest.Destination", "fclient/request.go:FederationRequest.HTTPRequest", "fclient/request.go:FederationRequest.Method", "fclient/request.go:FederationRequest.Origin", "fclient/request.go:FederationRequest.RequestURI", "fclient/request.go:FederationRequest.SetContent", "fclient/request.go:FederationRequest.Sign", "fclient/request.go:FederationRequest.checkFieldsUTF8", "fclient/request.go:.NewFederationRequest", "fclient/request.go:.ParseAuthorization", "fclient/request.go:.VerifyHTTPRequest", "fclient/request.go:.isSafeInHTTPQuotedString", "fclient/request.go:.readHTTPRequest", "json.go:EventJSONs.TrustedEvents", "json.go:EventJSONs.UntrustedEvents", "json.go:.CanonicalJSON", "json.go:.CanonicalJSONAssumeValid", "json.go:.CompactJSON", "json.go:.EnforcedCanonicalJSON", "json.go:.NewEventJSONsFromEvents", "json.go:.SortJSON", "json.go:.compactUnicodeEscape", "json.go:.isNegativeZeroLiteral", "json.go:.noVerifyCanonicalJSON", "json.go:.readHexDigits", "json.go:.sortJSONArray", "json.go:.sortJSONObject", "json.go:.sortJSONValue", "json.go:.verifyEnforcedCanonicalJSON", "keys.go:ServerKeys.MarshalJSON", "keys.go:ServerKeys.PublicKey", "keys.go:ServerKeys.UnmarshalJSON", "keys.go:.CheckKeys", "keys.go:.checkVerifyKeys", "signing.go:.ListKeyIDs", "signing.go:.SignJSON", "signing.go:.VerifyJSON", "signing.go:.checkStrictJSON", "signing.go:.checkStrictString", "spec/senderid.go:SenderID.IsPseudoID", "spec/senderid.go:SenderID.IsUserID", "spec/senderid.go:SenderID.RawBytes", "spec/senderid.go:SenderID.ToPseudoID", "spec/senderid.go:SenderID.ToUserID", "spec/senderid.go:.SenderIDFromPseudoIDKey", "spec/senderid.go:.SenderIDFromUserID", "stateresolutionv2.go:.HeaderedReverseTopologicalOrdering", "stateresolutionv2.go:.ResolveStateConflictsV2", "stateresolutionv2.go:.ResolveStateConflictsV2New", "stateresolutionv2.go:.ReverseTopologicalOrdering", "stateresolutionv2.go:.creatorsFromCreateEventOrNone", "stateresolutionv2.go:.eventMapFromEvents", "stateresolutionv2.go:.getCreateEvent", "stateresolutionv2.go:.isControlEvent", "stateresolutionv2.go:.kahnsAlgorithmUsingAuthEvents", "stateresolutionv2.go:.kahnsAlgorithmUsingPrevEvents", "stateresolutionv2.go:.newPDUSet", "stateresolutionv2.go:stateResolverV2.applyEvents", "stateresolutionv2.go:stateResolverV2.authAndApplyEvents", "stateresolutionv2.go:stateResolverV2.calculateAuthDifference", "stateresolutionv2.go:stateResolverV2.calculateAuthDifferenceNew", "stateresolutionv2.go:stateResolverV2.calculateFullAuthChainAndConflictedSubgraph", "stateresolutionv2.go:stateResolverV2.createPowerLevelMainline", "stateresolutionv2.go:stateResolverV2.getFirstPowerLevelMainlineEvent", "stateresolutionv2.go:stateResolverV2.getPowerLevelFromAuthEvents", "stateresolutionv2.go:stateResolverV2.mainlineOrdering", "stateresolutionv2.go:stateResolverV2.reverseTopologicalOrdering", "stateresolutionv2.go:stateResolverV2.wrapOtherEventsForSort", "stateresolutionv2.go:stateResolverV2.wrapPowerLevelEventsForSort"]
+def stateresolutionv2_type_IsRejected : List String := [
+  "type IsRejected func(eventID string) bool"
+]
+
+def stateresolutionv2_type_TopologicalOrder : List String := [
+  "type TopologicalOrder int"
+]
+
+def stateresolutionv2_type_stateResolverV2 : List String := [
+  "type stateResolverV2 struct { allower *allowerContext authProvider *AuthEvents authEventMap map[string]PDU conflictedEventMap map[string]PDU powerLevelContents map[string]*PowerLevelContent powerLevelMainlinePos map[string]int resolvedCreate PDU createEvent PDU resolvedPowerLevels PDU resolvedJoinRules PDU resolvedThirdPartyInvites map[string]PDU resolvedMembers map[spec.SenderID]PDU resolvedOthers map[StateKeyTuple]PDU result []PDU isRejectedFn IsRejected isRejectedCache map[string]bool }"
+]
+
+def functions : List String := ["eventV1.go:.newEventFromTrustedJSONV1", "eventV1.go:.newEventFromTrustedJSONWithEventIDV1", "eventV1.go:.newEventFromUntrustedJSONV1", "eventV1.go:.signableEventJSON", "eventV1.go:eventV1.AuthEventIDs", "eventV1.go:eventV1.Content", "eventV1.go:eventV1.Depth", "eventV1.go:eventV1.EventID", "eventV1.go:eventV1.HistoryVisibility", "eventV1.go:eventV1.IsSticky", "eventV1.go:eventV1.JSON", "eventV1.go:eventV1.JoinRule", "eventV1.go:eventV1.MarshalJSON", "eventV1.go:eventV1.Membership", "eventV1.go:eventV1.OriginServerTS", "eventV1.go:eventV1.PowerLevels", "eventV1.go:eventV1.PrevEventIDs", "eventV1.go:eventV1.Redact", "eventV1.go:eventV1.Redacted", "eventV1.go:eventV1.Redacts", "eventV1.go:eventV1.RoomID", "eventV1.go:eventV1.SenderID", "eventV1.go:eventV1.SetUnsigned", "eventV1.go:eventV1.SetUnsignedField", "eventV1.go:eventV1.Sign", "eventV1.go:eventV1.StateKey", "eventV1.go:eventV1.StateKeyEquals", "eventV1.go:eventV1.StickyEndTime", "eventV1.go:eventV1.ToHeaderedJSON", "eventV1.go:eventV1.Type", "eventV1.go:eventV1.Unsigned", "eventV1.go:eventV1.Version", "eventV1.go:eventV1.assumedStickyStartTime", "eventV1.go:eventV1.calculatedStickyEndTime", "eventV1.go:type eventV1", "eventV1.go:type stickyEventData", "eventV2.go:.CheckFields", "eventV2.go:.newEventFromTrustedJSONV2", "eventV2.go:.newEventFromTrustedJSONWithEventIDV2", "eventV2.go:.newEventFromUntrustedJSONV2", "eventV2.go:eventV2.AuthEventIDs", "eventV2.go:eventV2.EventID", "eventV2.go:eventV2.MarshalJSON", "eventV2.go:eventV2.PrevEventIDs", "eventV2.go:eventV2.Redact", "eventV2.go:eventV2.SenderID", "eventV2.go:eventV2.SetUnsigned", "eventV2.go:eventV2.Sign", "eventV2.go:eventV2.populateEventID", "eventV2.go:type eventV2", "eventV3.go:.checkRoomID", "eventV3.go:.newEventFromTrustedJSONV3", "eventV3.go:.newEventFromTrustedJSONWithEventIDV3", "eventV3.go:.newEventFromUntrustedJSONV3", "eventV3.go:eventV3.AuthEventIDs", "eventV3.go:eventV3.RoomID", "eventV3.go:eventV3.SetUnsigned", "eventV3.go:eventV3.Sign", "eventV3.go:type eventV3", "event.go:EventValidationError.Error", "event.go:.SplitID", "event.go:.checkID", "event.go:.checkRoomIDField", "event.go:.checkUntrustedEventJSON", "event.go:.duplicateJSONKey", "event.go:.jsonFieldNames", "event.go:jsonWalk.duplicateName", "event.go:type EventValidationError", "event.go:type eventFields", "event.go:type jsonWalk", "eventauth.go:AuthEvents.AddEvent", "eventauth.go:AuthEvents.Clear", "eventauth.go:AuthEvents.Create", "eventauth.go:AuthEvents.JoinRules", "eventauth.go:AuthEvents.Member", "eventauth.go:AuthEvents.PowerLevels", "eventauth.go:AuthEvents.ThirdPartyInvite", "eventauth.go:AuthEvents.Valid", "eventauth.go:NotAllowed.Error", "eventauth.go:StateNeeded.AuthEventReferences", "eventauth.go:StateNeeded.Tuples", "eventauth.go:.Allowed", "eventauth.go:.NewAuthEvents", "eventauth.go:.StateNeededForAuth", "eventauth.go:.StateNeededForProtoEvent", "eventauth.go:.accumulateStateNeeded", "eventauth.go:.allowRestrictedJoins", "eventauth.go:.checkEventLevels", "eventauth.go:.checkKnocking", "eventauth.go:.checkNotificationLevels", "eventauth.go:.checkPowerLevelEventV1", "eventauth.go:.checkPowerLevelEventV2", "eventauth.go:.checkPowerLevelEventV3", "eventauth.go:.checkUserLevels", "eventauth.go:.disallowKnocking", "eventauth.go:.disallowRestrictedJoins", "eventauth.go:.errorf", "eventauth.go:.newAllowerContext", "eventauth.go:.thirdPartyInviteToken", "eventauth.go:allowerContext.aliasEventAllowed", "eventauth.go:allowerContext.allowed", "eventauth.go:allowerContext.createEventAllowed", "eventauth.go:allowerContext.defaultEventAllowed", "eventauth.go:allowerContext.memberEventAllowed", "eventauth.go:allowerContext.newEventAllower", "eventauth.go:allowerContext.newMembershipAllower", "eventauth.go:allowerContext.powerLevelsEventAllowed", "eventauth.go:allowerContext.redactEventAllowed", "eventauth.go:allowerContext.resetCreate", "eventauth.go:allowerContext.update", "eventauth.go:allowerContext.userPowerLevel", "eventauth.go:eventAllower.commonChecks", "eventauth.go:membershipAllower.membershipAllowed", "eventauth.go:membershipAllower.membershipAllowedFromThirdPartyInvite", "eventauth.go:membershipAllower.membershipAllowedOther", "eventauth.go:membershipAllower.membershipAllowedSelf", "eventauth.go:membershipAllower.membershipAllowedSelfForRestrictedJoin", "eventauth.go:membershipAllower.membershipFailed", "eventauth.go:type AuthEventProvider", "eventauth.go:type AuthEvents", "eventauth.go:type NotAllowed", "eventauth.go:type StateNeeded", "eventauth.go:type allowerContext", "eventauth.go:type eventAllower", "eventauth.go:type membershipAllower", "eventauth.go:type membershipContent", "eventcontent.go:CreateContent.DomainAllowed", "eventcontent.go:CreateContent.UserIDAllowed", "eventcontent.go:HistoryVisibility.Scan", "eventcontent.go:HistoryVisibility.Value", "eventcontent.go:MXIDMapping.Sign", "eventcontent.go:PowerLevelContent.Defaults", "eventcontent.go:PowerLevelContent.EventLevel", "eventcontent.go:PowerLevelContent.NotificationLevel", "eventcontent.go:PowerLevelContent.UserLevel", "eventcontent.go:.CreatorsFromCreateEvent", "eventcontent.go:.NewCreateContentFromAuthEvents", "eventcontent.go:.NewJoinRuleContentFromAuthEvents", "eventcontent.go:.NewMemberContentFromAuthEvents", "eventcontent.go:.NewMemberContentFromEvent", "eventcontent.go:.NewPowerLevelContentFromAuthEvents", "eventcontent.go:.NewPowerLevelContentFromEvent", "eventcontent.go:.NewThirdPartyInviteContentFromAuthEvents", "eventcontent.go:.checkCreateEventV1", "eventcontent.go:.checkCreateEventV2", "eventcontent.go:.checkCreateEventV3", "eventcontent.go:.domainFromID", "eventcontent.go:.isValidUserID", "eventcontent.go:.parseIntegerPowerLevels", "eventcontent.go:.parsePowerLevels", "eventcontent.go:levelJSONValue.UnmarshalJSON", "eventcontent.go:levelJSONValue.assignIfExists", "eventcontent.go:notNullLevel.UnmarshalJSON", "eventcontent.go:notNullLevels.UnmarshalJSON", "eventcontent.go:type CreateContent", "eventcontent.go:type HistoryVisibility", "eventcontent.go:type HistoryVisibilityContent", "eventcontent.go:type JoinRuleContent", "eventcontent.go:type JoinRuleContentAllowRule", "eventcontent.go:type MXIDMapping", "eventcontent.go:type MemberContent", "eventcontent.go:type MemberThirdPartyInvite", "eventcontent.go:type MemberThirdPartyInviteSigned", "eventcontent.go:type PowerLevelContent", "eventcontent.go:type PreviousRoom", "eventcontent.go:type PublicKey", "eventcontent.go:type RelatesTo", "eventcontent.go:type RelationContent", "eventcontent.go:type ThirdPartyInviteContent", "eventcontent.go:type levelJSONValue", "eventcontent.go:type notNullLevel", "eventcontent.go:type notNullLevels", "eventcrypto.go:.VerifyAllEventSignatures", "eventcrypto.go:.VerifyEventSignatures", "eventcrypto.go:.addContentHashesToEvent", "eventcrypto.go:.checkEventContentHash", "eventcrypto.go:.emptyAuthorisedViaServerName", "eventcrypto.go:.extractAuthorisedViaServerName", "eventcrypto.go:.getMXIDMapping", "eventcrypto.go:.membershipForSignatures", "eventcrypto.go:.referenceOfEvent", "eventcrypto.go:.referenceOfEventForVersion", "eventcrypto.go:.signEvent", "eventcrypto.go:.validateMXIDMappingSignatures", "eventversion.go:RoomVersionImpl.CheckCanonicalJSON", "eventversion.go:RoomVersionImpl.CheckCreateEvent", "eventversion.go:RoomVersionImpl.CheckKnockingAllowed", "eventversion.go:RoomVersionImpl.CheckPowerLevelEvent", "eventversion.go:RoomVersionImpl.CheckRestrictedJoin", "eventversion.go:RoomVersionImpl.CheckRestrictedJoinsAllowed", "eventversion.go:RoomVersionImpl.DomainlessRoomIDs", "eventversion.go:RoomVersionImpl.EventFormat", "eventversion.go:RoomVersionImpl.EventIDFormat", "eventversion.go:RoomVersionImpl.NewEventBuilder", "eventversion.go:RoomVersionImpl.NewEventBuilderFromProtoEvent", "eventversion.go:RoomVersionImpl.NewEventFromTrustedJSON", "eventversion.go:RoomVersionImpl.NewEventFromTrustedJSONWithEventID", "eventversion.go:RoomVersionImpl.NewEventFromUntrustedJSON", "eventversion.go:RoomVersionImpl.ParsePowerLevels", "eventversion.go:RoomVersionImpl.PrivilegedCreators", "eventversion.go:RoomVersionImpl.RedactEventJSON", "eventversion.go:RoomVersionImpl.RestrictedJoinServername", "eventversion.go:RoomVersionImpl.SignatureValidityCheck", "eventversion.go:RoomVersionImpl.Stable", "eventversion.go:RoomVersionImpl.StateResAlgorithm", "eventversion.go:RoomVersionImpl.Version", "eventversion.go:UnsupportedRoomVersionError.Error", "eventversion.go:.GetRoomVersion", "eventversion.go:.KnownRoomVersion", "eventversion.go:.MustGetRoomVersion", "eventversion.go:.NewEventFromHeaderedJSON", "eventversion.go:.RoomVersions", "eventversion.go:.SetRoomVersion", "eventversion.go:.StableRoomVersion", "eventversion.go:.StableRoomVersions", "eventversion.go:type EventFormat", "eventversion.go:type EventIDFormat", "eventversion.go:type IRoomVersion", "eventversion.go:type KnownRoomVersionFunc", "eventversion.go:type RoomVersion", "eventversion.go:type RoomVersionImpl", "eventversion.go:type StateResAlgorithm", "eventversion.go:type UnsupportedRoomVersionError", "fclient/federationtypes.go:DeviceKeys.Scan", "fclient/federationtypes.go:DeviceKeys.Value", "fclient/federationtypes.go:DeviceKeys.isCrossSigningBody", "fclient/federationtypes.go:MSC2836EventRelationshipsRequest.Defaults", "fclient/federationtypes.go:RespInvite.MarshalJSON", "fclient/federationtypes.go:RespInvite.UnmarshalJSON", "fclient/federationtypes.go:RespMakeJoin.GetJoinEvent", "fclient/federationtypes.go:RespMakeJoin.GetRoomVersion", "fclient/federationtypes.go:RespPeek.GetAuthEvents", "fclient/federationtypes.go:RespPeek.GetStateEvents", "fclient/federationtypes.go:RespPeek.MarshalJSON", "fclient/federationtypes.go:RespSendJoin.GetAuthEvents", "fclient/federationtypes.go:RespSendJoin.GetJoinEvent", "fclient/federationtypes.go:RespSendJoin.GetMembersOmitted", "fclient/federationtypes.go:RespSendJoin.GetOrigin", "fclient/federationtypes.go:RespSendJoin.GetServersInRoom", "fclient/federationtypes.go:RespSendJoin.GetStateEvents", "fclient/federationtypes.go:RespSendJoin.MarshalJSON", "fclient/federationtypes.go:RespStateIDs.GetAuthEventIDs", "fclient/federationtypes.go:RespStateIDs.GetStateEventIDs", "fclient/federationtypes.go:RespState.GetAuthEvents", "fclient/federationtypes.go:RespState.GetStateEvents", "fclient/federationtypes.go:RespState.MarshalJSON", "fclient/federationtypes.go:RespUserDevices.UnmarshalJSON", "fclient/federationtypes.go:.NewMSC2836EventRelationshipsRequest", "fclient/federationtypes.go:type DeviceKeys", "fclient/federationtypes.go:type EmptyResp", "fclient/federationtypes.go:type MSC2836EventRelationshipsRequest", "fclient/federationtypes.go:type MSC2836EventRelationshipsResponse", "fclient/federationtypes.go:type MissingEvents", "fclient/federationtypes.go:type PDUResult", "fclient/federationtypes.go:type PublicRoom", "fclient/federationtypes.go:type RespClaimKeys", "fclient/federationtypes.go:type RespDirectory", "fclient/federationtypes.go:type RespEventAuth", "fclient/federationtypes.go:type RespInvite", "fclient/federationtypes.go:type RespInviteV2", "fclient/federationtypes.go:type RespMakeJoin", "fclient/federationtypes.go:type RespMakeKnock", "fclient/federationtypes.go:type RespMakeLeave", "fclient/federationtypes.go:type RespMissingEvents", "fclient/federationtypes.go:type RespPeek", "fclient/federationtypes.go:type RespProfile", "fclient/federationtypes.go:type RespPublicRooms", "fclient/federationtypes.go:type RespQueryKeys", "fclient/federationtypes.go:type RespSend", "fclient/federationtypes.go:type RespSendJoin", "fclient/federationtypes.go:type RespSendKnock", "fclient/federationtypes.go:type RespState", "fclient/federationtypes.go:type RespStateIDs", "fclient/federationtypes.go:type RespUserDevice", "fclient/federationtypes.go:type RespUserDeviceKeys", "fclient/federationtypes.go:type RespUserDevices", "fclient/federationtypes.go:type RoomHierarchyResponse", "fclient/federationtypes.go:type RoomHierarchyRoom", "fclient/federationtypes.go:type RoomHierarchyStrippedEvent", "fclient/federationtypes.go:type Version", "fclient/federationtypes.go:type respInviteFields", "fclient/federationtypes.go:type respSendJoinFields", "fclient/federationtypes.go:type respSendJoinPartialStateFields", "fclient/federationtypes.go:type respStateFields", "fclient/request.go:FederationRequest.Content", "fclient/request.go:FederationRequest.Destination", "fclient/request.go:FederationRequest.HTTPRequest", "fclient/request.go:FederationRequest.Method", "fclient/request.go:FederationRequest.Origin", "fclient/request.go:FederationRequest.RequestURI", "fclient/request.go:FederationRequest.SetContent", "fclient/request.go:FederationRequest.Sign", "fclient/request.go:FederationRequest.checkFieldsUTF8", "fclient/request.go:.NewFederationRequest", "fclient/request.go:.ParseAuthorization", "fclient/request.go:.VerifyHTTPRequest", "fclient/request.go:.isSafeInHTTPQuotedString", "fclient/request.go:.readHTTPRequest", "fclient/request.go:type FederationRequest", "json.go:EventJSONs.TrustedEvents", "json.go:EventJSONs.UntrustedEvents", "json.go:.CanonicalJSON", "json.go:.CanonicalJSONAssumeValid", "json.go:.CompactJSON", "json.go:.EnforcedCanonicalJSON", "json.go:.NewEventJSONsFromEvents", "json.go:.SortJSON", "json.go:.compactUnicodeEscape", "json.go:.isNegativeZeroLiteral", "json.go:.noVerifyCanonicalJSON", "json.go:.readHexDigits", "json.go:.sortJSONArray", "json.go:.sortJSONObject", "json.go:.sortJSONValue", "json.go:.verifyEnforcedCanonicalJSON", "json.go:type EventJSONs", "keys.go:ServerKeys.MarshalJSON", "keys.go:ServerKeys.PublicKey", "keys.go:ServerKeys.UnmarshalJSON", "keys.go:.CheckKeys", "keys.go:.checkVerifyKeys", "keys.go:type Ed25519Checks", "keys.go:type KeyChecks", "keys.go:type OldVerifyKey", "keys.go:type ServerKeyFields", "keys.go:type ServerKeys", "keys.go:type VerifyKey", "signing.go:.ListKeyIDs", "signing.go:.SignJSON", "signing.go:.VerifyJSON", "signing.go:.checkStrictJSON", "signing.go:.checkStrictString", "signing.go:type KeyID", "spec/senderid.go:SenderID.IsPseudoID", "spec/senderid.go:SenderID.IsUserID", "spec/senderid.go:SenderID.RawBytes", "spec/senderid.go:SenderID.ToPseudoID", "spec/senderid.go:SenderID.ToUserID", "spec/senderid.go:.SenderIDFromPseudoIDKey", "spec/senderid.go:.SenderIDFromUserID", "spec/senderid.go:type CreateSenderID", "spec/senderid.go:type SenderID", "spec/senderid.go:type SenderIDForUser", "spec/senderid.go:type StoreSenderIDFromPublicID", "spec/senderid.go:type UserIDForSender", "stateresolutionv2.go:.HeaderedReverseTopologicalOrdering", "stateresolutionv2.go:.ResolveStateConflictsV2", "stateresolutionv2.go:.ResolveStateConflictsV2New", "stateresolutionv2.go:.ReverseTopologicalOrdering", "stateresolutionv2.go:.creatorsFromCreateEventOrNone", "stateresolutionv2.go:.eventMapFromEvents", "stateresolutionv2.go:.getCreateEvent", "stateresolutionv2.go:.isControlEvent", "stateresolutionv2.go:.kahnsAlgorithmUsingAuthEvents", "stateresolutionv2.go:.kahnsAlgorithmUsingPrevEvents", "stateresolutionv2.go:.newPDUSet", "stateresolutionv2.go:stateResolverV2.applyEvents", "stateresolutionv2.go:stateResolverV2.authAndApplyEvents", "stateresolutionv2.go:stateResolverV2.calculateAuthDifference", "stateresolutionv2.go:stateResolverV2.calculateAuthDifferenceNew", "stateresolutionv2.go:stateResolverV2.calculateFullAuthChainAndConflictedSubgraph", "stateresolutionv2.go:stateResolverV2.createPowerLevelMainline", "stateresolutionv2.go:stateResolverV2.getFirstPowerLevelMainlineEvent", "stateresolutionv2.go:stateResolverV2.getPowerLevelFromAuthEvents", "stateresolutionv2.go:stateResolverV2.mainlineOrdering", "stateresolutionv2.go:stateResolverV2.reverseTopologicalOrdering", "stateresolutionv2.go:stateResolverV2.wrapOtherEventsForSort", "stateresolutionv2.go:stateResolverV2.wrapPowerLevelEventsForSort", "stateresolutionv2.go:type IsRejected", "stateresolutionv2.go:type TopologicalOrder", "stateresolutionv2.go:type stateResolverV2"]
 
 end VPins.C18
